@@ -53,7 +53,17 @@ func runChild(b *buildOut, p *plan.Plan, wallLimit time.Duration) *plan.Result {
 			res.Log = append(res.Log, tail(out.String(), 12000))
 			res.Stats["race_reports"] = int64(strings.Count(out.String(), "WARNING: DATA RACE"))
 			res.Summary = "race"
+			raceViolations(res, out.String())
 		}
+		return res
+	}
+	if strings.Contains(out.String(), "WARNING: DATA RACE") {
+		// the testing package ends a test on which the race detector
+		// reported before the result file is written
+		res = &plan.Result{Prop: p.Prop, Seed: p.Seed, Stats: map[string]int64{"nontrivial": 1}, TraceHash: fmt.Sprintf("race-%d", p.Seed), Summary: "race"}
+		res.Log = append(res.Log, tail(out.String(), 12000))
+		res.Stats["race_reports"] = int64(strings.Count(out.String(), "WARNING: DATA RACE"))
+		raceViolations(res, out.String())
 		return res
 	}
 	why := "no result"
@@ -70,4 +80,41 @@ func tail(s string, n int) string {
 		return s[len(s)-n:]
 	}
 	return s
+}
+
+// raceViolations turns the race detector's reports into C41 violations. C41
+// is about the client's memory: a report counts when one of the two
+// conflicting accesses has a frame in pkg/kgo; reports between harness or
+// kfake code only are counted (stats) and logged, not judged.
+func raceViolations(res *plan.Result, out string) {
+	for _, rep := range strings.Split(out, "==================") {
+		if !strings.Contains(rep, "WARNING: DATA RACE") {
+			continue
+		}
+		acc := rep
+		if i := strings.Index(acc, "\nGoroutine "); i > 0 {
+			acc = acc[:i] // the two access stacks, without the goroutine creation stacks
+		}
+		if !strings.Contains(acc, "/pkg/kgo.") && !strings.Contains(acc, "/pkg/kgo/") {
+			res.Stats["race_reports_outside_client"]++
+			continue
+		}
+		fn := "unknown"
+		for _, l := range strings.Split(acc, "\n") {
+			l = strings.TrimSpace(l)
+			if strings.HasPrefix(l, "github.com/twmb/franz-go/pkg/kgo") {
+				fn = strings.TrimPrefix(l, "github.com/twmb/franz-go/pkg/")
+				if i := strings.IndexByte(fn, '('); i > 0 && !strings.HasPrefix(fn[i:], "(*") {
+					fn = fn[:i]
+				}
+				if i := strings.LastIndex(fn, "("); i > 0 && strings.HasSuffix(fn, ")") && !strings.Contains(fn[i:], "*") {
+					fn = fn[:i]
+				}
+				break
+			}
+		}
+		if len(res.Violations) < 5 {
+			res.Violations = append(res.Violations, plan.Violation{Class: "C41/race/" + fn, Msg: "data race reported by the race detector:\n" + strings.TrimSpace(rep)})
+		}
+	}
 }
